@@ -62,6 +62,10 @@ pub(super) struct RenderTerminusContext<'ctx, 'tcx> {
 
     pub relative_import_path: String,
     pub module_name: String,
+
+    /// The opaque types whose constructors are being evaluated right now (innermost last).
+    /// A constructor that (transitively) needs a value of its own type cannot be rendered.
+    pub constructing: Vec<String>,
 }
 
 impl MethodDependency {
@@ -403,6 +407,22 @@ impl RenderTerminusContext<'_, '_> {
             }
 
             if usable_constructor {
+                if self.constructing.contains(&type_name) {
+                    self.errors.push_error(format!(
+                        "The constructor of the opaque type {} needs a value of type {0} itself (through {}), \
+                        so no call to it can be generated for the function {}. \
+                        Try marking a constructor that does not with #[diplomat::demo(default_constructor)], \
+                        or disable the function in the backend: `#[diplomat::attr(demo_gen, disable)]`.",
+                        op.name.as_str(),
+                        self.constructing.join(" -> "),
+                        node.method_js
+                    ));
+                    return format!(
+                        "null /*Constructing {} needs a {0}*/",
+                        op.name.as_str()
+                    );
+                }
+
                 self.terminus_info
                     .imports
                     .insert(self.formatter.fmt_import_module(
@@ -429,7 +449,9 @@ impl RenderTerminusContext<'_, '_> {
                     Some(owned_type),
                 );
 
+                self.constructing.push(type_name.clone());
                 self.evaluate_constructor(method, &mut child);
+                self.constructing.pop();
                 return child.variable_name;
             }
         }
